@@ -333,6 +333,56 @@ def run_filter(args):
                                        f"called right after the filter was asked about the identical function `same` "
                                        f"compiled from the same source under {first}")})
     stats["twin_cases"] = n_twin
+
+    # ---- one process, the allow-list changing between several non-empty values (and back, and unset) with NO cache
+    #      clearing in between; the same code objects are judged under each value in force ----
+    os.environ.pop("MONKEYTYPE_TRACE_MODULES", None)
+    default_code_filter.cache_clear()
+    hist_files = [os.path.join(work, "user", rel) for rel in
+                  ("pkg_a/mod1.py", "pkg_a/sub/deep.py", "json/decoder.py", "top_mod.py", "lib/lib.py", "site-packages/inside.py")]
+    hist_files += [os.path.join(work, "links", "lnk_pkg", "mod1.py"), os.path.join(work, "links", "std_json", "encoder.py"),
+                   os.path.join(stdlib_root, "json", "decoder.py"), os.path.join(stdlib_root, "json", "__init__.py"),
+                   os.path.join(stdlib_root, "os.py"), os.path.join(stdlib_root, "email", "mime", "text.py"),
+                   "<string>", "user/pkg_a/mod1.py"]
+    lib_sample = [raw for raw in groups if kinds[raw] == "library"]
+    hist_files += rnd.sample(lib_sample, min(len(lib_sample), args.get("n_hist_lib", 40)))
+    hist_codes = []
+    for nm in hist_files:
+        if nm in groups:
+            hist_codes.append((nm, groups[nm][0]))
+        else:
+            hist_codes.append((nm, base.replace(co_filename=nm)))
+    pool = ["pkg_a", "decoder,json", "mod1", "top_mod,lib", "json", "os,text", "deep,sub", "site-packages", "email", "", "encoder",
+            "pkg_a,mod1,decoder"]
+    seq = ["pkg_a", "decoder,json", "pkg_a", None, "mod1", "decoder,json", "", "json", None, "os,text", "pkg_a"]
+    while len(seq) < args.get("n_hist_env", 14):
+        seq.append(rnd.choice(pool + [None]))
+    n_hist = 0
+    so_far = []
+    for step, env in enumerate(seq):
+        if env is None:
+            os.environ.pop("MONKEYTYPE_TRACE_MODULES", None)
+        else:
+            os.environ["MONKEYTYPE_TRACE_MODULES"] = env
+        names = None if env is None else env.split(",")
+        for nm, c in hist_codes:
+            try:
+                a = default_code_filter(c)
+                a = a if isinstance(a, bool) else "non-bool:" + repr(a)
+            except RuntimeError as e:
+                a = None if "Symlink loop" in str(e) else "raised:" + repr(e)
+            except Exception as e:
+                a = "raised:" + repr(e)
+            n_eval += 1
+            n_hist += 1
+            res = "synthetic-not-resolved" if (not nm or nm[0] == "<") else (resolved[nm] if nm in resolved else oracle_resolve(nm))
+            cases.append({"raw": nm, "resolved": res, "env": env, "names": names, "impl": a, "n_code": 1, "kind": "env-history",
+                          "env_history": list(so_far) + [env],
+                          "note": f"step {step} of one process in which MONKEYTYPE_TRACE_MODULES took the values {so_far + [env]!r} in turn "
+                                  f"(no cache clearing); every file of the set was judged at every step"})
+        so_far.append(env)
+    stats["env_history_cases"] = n_hist
+    stats["env_history"] = seq
     os.environ.pop("MONKEYTYPE_TRACE_MODULES", None)
     default_code_filter.cache_clear()
     stats["filter_calls"] = n_eval
@@ -365,13 +415,14 @@ def run_logger(args):
 
     rnd = random.Random(args["seed"] + 1)
     out = []
-    for ci in range(args["n_logger"]):
+    for ci in range(args["n_logger"] + 1):
         store = Rec()
         lg = CallTraceStoreLogger(store)
         ops = []
         ids = {}
-        for j in range(rnd.randrange(0, 14)):
-            if rnd.random() < 0.22:
+        # the last case is one LONG run: thousands of traces logged before the only flush
+        for j in range(rnd.randrange(0, 14) if ci < args["n_logger"] else 6000):
+            if ci < args["n_logger"] and rnd.random() < 0.22:
                 lg.flush()
                 ops.append(["flush"])
             else:
